@@ -25,6 +25,9 @@ from harness import c11_script as cs
 from lib.framework import Check, time_limit
 
 # mutators of objects for which "created read-only" is meaningful are found by the constructor signature
+# region of known finding C11-readonly-unguarded-2: public mutators without the read-only guard
+RO_UNGUARDED_2 = {'SelectorList.__delitem__', 'CSSStyleSheet.cssRules', 'CSSMediaRule.cssRules', 'CSSPageRule.cssRules',
+                  'CSSRule.atkeyword'}
 NO_READONLY_CLASSES = {'Property', '_Namespaces'}
 
 
@@ -39,9 +42,9 @@ class C11(Check):
         'self); its output is tied to the running code by the statement-trace correspondence of this run',
         'the per-site no-raise assumptions listed in gen.ASSUME_NORAISE (each is contradicted by the trace '
         'correspondence if the site ever raises)',
-        'child setters are atomic themselves: a call of a mutator on an object held in a field is modelled as '
-        '"raises with the child unchanged, or changes the child" — justified mutator by mutator by '
-        'all_disciplined_partial (modular argument over the ownership depth), not by a Lean theorem about nesting',
+        'call sites are resolved to child mutators by member name (the tree theorems T11.4 quantify over every '
+        'mutator of the child; the ownership correspondence confirms the function entered on each run); the one '
+        'child-helper site that keeps the assumed contract is justified in gen.ASSUMED_HELPERS',
     )
     assumptions = (
         'cssutils.log.raiseExceptions is True during DOM edits (the library default outside parse*())',
@@ -156,6 +159,9 @@ class C11(Check):
                 isinstance(exc, xml.dom.NoModificationAllowedErr) and \
                 'NamespaceURI defined in this rule is used' in str(exc):
             return 'C11-nsinsert-partial-clean'
+        if m == 'CSSStyleSheet._setCssTextWithEncodingOverride' and \
+                self.finding_status.get('C11-encoding-override-internal') == 'known':
+            return 'C11-encoding-override-internal'
         return None
 
     RO_MISSING = set()
@@ -497,10 +503,18 @@ class C11(Check):
                                                          not getattr(obj, '_readonly', False) and
                                                          self.finding_status.get('C11-value-readonly') == 'known') \
                             else None
+                        if name in RO_UNGUARDED_2 and outcome == 'ok' and \
+                                self.finding_status.get('C11-readonly-unguarded-2') == 'known':
+                            known = 'C11-readonly-unguarded-2'
                         ctx.violate('an object created read-only rejects every mutator and stays unchanged', wit,
                                     {'outcome': outcome, 'exception': type(exc).__name__ if exc else None,
                                      'first_differences': [(p, repr(x)[:120], repr(y)[:120]) for p, x, y in
                                                            dom.diff(before, after)[:3]]}, known=known)
+
+    def search(self, ctx):
+        if os.environ.get('VERIF_C11_NOSEARCH'):      # development aid: report the broken tie at once
+            return
+        super().search(ctx)
 
     # -- known findings / replay ------------------------------------------------------------------------------
     def known(self, ctx, finding):
